@@ -324,6 +324,15 @@ let run_x86mov = function
      | _ -> "ERR need exactly one instruction")
   | _ -> "ERR bad x86mov line"
 
+(* x86limit|<code> -> ok | bad *)
+let run_x86limit = function
+  | [code] ->
+    let parse l = match List.filter (fun x -> x <> "") (split_on ' ' l) with
+      | ["load"] -> LLoadBudget | ["cmp"; c] -> LCmpRax (zs c) | ["jb"] -> LJbTerm | ["dec"] -> LDecRax | ["store"] -> LStoreBudget
+      | _ -> failwith ("bad limit-template instruction " ^ l) in
+    if limit_ok (List.map parse (List.filter (fun x -> String.trim x <> "") (split_on ';' code))) then "ok" else "bad mismatch"
+  | _ -> "ERR bad x86limit line"
+
 (* x86br|<one-instruction bytecode program text>|<code> -> ok | bad *)
 let run_x86br = function
   | [bc; code] ->
@@ -713,7 +722,7 @@ let run_bcmem = function
      | _ -> "notdone")
   | _ -> "ERR bad bcmem line"
 
-let handlers : (Stdlib.String.t * (Stdlib.String.t list -> Stdlib.String.t)) list ref = ref [ ("cell", run_cell); ("bf", run_bf); ("inplace", run_inplace); ("ir", run_ir); ("bc", run_bc); ("x86form", run_x86form); ("x86call", run_x86call); ("x86br", run_x86br); ("x86mov", run_x86mov); ("bcreach", run_bcreach); ("parse", run_parse); ("bfbig", run_bfbig); ("bcmem", run_bcmem); ("formsnf", run_formsnf); ("shapes", run_shapes); ("cli", run_cli); ("bcwf", run_bcwf); ("bfx", run_bfx); ("expr", run_expr); ("svec", run_svec); ("tape", run_tape); ("rawproto", run_rawproto); ("bfcycle", run_bfcycle); ("irbig", run_irbig) ]
+let handlers : (Stdlib.String.t * (Stdlib.String.t list -> Stdlib.String.t)) list ref = ref [ ("cell", run_cell); ("bf", run_bf); ("inplace", run_inplace); ("ir", run_ir); ("bc", run_bc); ("x86form", run_x86form); ("x86call", run_x86call); ("x86br", run_x86br); ("x86mov", run_x86mov); ("x86limit", run_x86limit); ("bcreach", run_bcreach); ("parse", run_parse); ("bfbig", run_bfbig); ("bcmem", run_bcmem); ("formsnf", run_formsnf); ("shapes", run_shapes); ("cli", run_cli); ("bcwf", run_bcwf); ("bfx", run_bfx); ("expr", run_expr); ("svec", run_svec); ("tape", run_tape); ("rawproto", run_rawproto); ("bfcycle", run_bfcycle); ("irbig", run_irbig) ]
 
 let () =
   (try
